@@ -161,9 +161,86 @@ def python_eq(prog: Program, resolver: Resolver, x_cls: str, x: AV, y_cls: str, 
     return k, ops, via
 
 
+FAMILY = ("Quantity", "Level", "Measurement")
+
+
+def _ancestors(prog: Program, name: str, seen: Optional[Set[str]] = None) -> Set[str]:
+    seen = seen if seen is not None else set()
+    ci = prog.classes.get(name)
+    if ci is None:
+        return seen
+    for b in ci.bases:
+        b = b.split(".")[-1].split("[")[0]
+        if b not in seen:
+            seen.add(b)
+            _ancestors(prog, b, seen)
+    return seen
+
+
+def override_discipline(rep: Report, prog: Program) -> None:
+    """R12.7: the symmetry arguments R12.1/R12.2 are about Quantity, Level and Measurement.  A
+    subclass that overrides a comparison re-opens them: when its other operand may be of its own
+    kind, whatever it does to `other` before delegating it must do to `self` as well, otherwise
+    a == b and b == a (both dispatched to the override) compare different things."""
+    subs = 0
+    for cname, ci in sorted(prog.classes.items()):
+        anc = _ancestors(prog, cname)
+        fam = [f for f in FAMILY if f in anc]
+        if cname in FAMILY or not fam:
+            continue
+        for d in list(OPS) + ["__ne__"]:
+            if d not in ci.methods:
+                continue
+            subs += 1
+            fi = prog.functions[ci.methods[d]]
+            params = fi.params()
+            me, other = params[0], params[1]
+            own_kinds = {cname} | anc
+
+            def derived(root: str) -> Set[str]:
+                names = {root}
+                changed = True
+                while changed:
+                    changed = False
+                    for st in ast.walk(fi.node):
+                        if isinstance(st, ast.Assign) and len(st.targets) == 1 and isinstance(st.targets[0], ast.Name):
+                            used = {x.id for x in ast.walk(st.value) if isinstance(x, ast.Name)}
+                            if used & names and st.targets[0].id not in names and not (used & {me, other} - names):
+                                names.add(st.targets[0].id)
+                                changed = True
+                return names
+            mine, theirs = derived(me), derived(other)
+            # projections of `other` in arms where it may be of the receiver's own kind
+            problems = []
+            for st in ast.walk(fi.node):
+                if not (isinstance(st, ast.If) and isinstance(st.test, ast.Call) and ast.unparse(st.test.func) == "isinstance" and len(st.test.args) == 2):
+                    continue
+                if ast.unparse(st.test.args[0]) not in theirs:
+                    continue
+                kinds = {ast.unparse(k).split(".")[-1] for k in (st.test.args[1].elts if isinstance(st.test.args[1], ast.Tuple) else [st.test.args[1]])}
+                if not (kinds & own_kinds):
+                    continue
+                for b in st.body:
+                    for x in ast.walk(b):
+                        if isinstance(x, ast.Assign) and len(x.targets) == 1 and isinstance(x.targets[0], ast.Name) and x.targets[0].id in theirs:
+                            proj = sorted({a.attr for a in ast.walk(x.value) if isinstance(a, ast.Attribute) and isinstance(a.value, ast.Name) and a.value.id in theirs})
+                            self_attrs = {a.attr for a in ast.walk(fi.node) if isinstance(a, ast.Attribute) and isinstance(a.value, ast.Name) and a.value.id in mine}
+                            missing = [a for a in proj if a not in self_attrs]
+                            if missing:
+                                problems.append((x, missing))
+            rep.check("R12.7", f"{cname}.{d}", not problems,
+                      f"{cname}.{d} overrides {fam[0]}.{d} and, for an operand that may itself be a {cname}, replaces it by "
+                      f"`{ast.unparse(problems[0][0].value) if problems else ''}` while the receiver is compared whole: for two "
+                      f"{cname} values a == b and b == a are both decided by this method and compare different things",
+                      fi.where(problems[0][0] if problems else None))
+    if subs == 0:
+        rep.ok("R12.7", "family", note="no subclass of Quantity, Level or Measurement overrides a comparison")
+
+
 def run(rep: Report) -> None:
     prog = Program()
     resolver = Resolver(prog)
+    rep.rule("R12.7", "a subclass overriding a comparison treats both operands alike when the other may be of its own kind", floor=1)
     rep.rule("R12.1", "the overlap predicate of Measurement.__eq__, as a function of the four interval bounds, is invariant "
              "under swapping the operands on every weak ordering with lower <= upper (exhaustive)", floor=20)
     rep.rule("R12.2", "dispatch matrix: for each ordered pair over {Quantity, Level, Measurement}, a == b and b == a reduce "
@@ -264,6 +341,7 @@ def run(rep: Report) -> None:
                       f"{cls}.{d} contains `{ast.unparse(wrong[0]) if wrong else ''}`: an ordering method must compare with its own "
                       "operator on every path (a converted branch with another operator contradicts the same-unit branch)",
                       fi.where(wrong[0] if wrong else None))
+    override_discipline(rep, prog)
     check_comparisons(rep, prog, resolver, "R06.2")
     rep.assume("Quantity equality/ordering compare physical values (R06.2); Python's reflected-operand protocol for NotImplemented")
     rep.not_decided += ["trichotomy and sorted() on physical values numerically (floating-point ties)",
